@@ -10087,6 +10087,18 @@ impl<
 			self.claimable_payments.lock().unwrap().pending_claiming_payments.remove(&payment_hash);
 			log_info!(self.logger, "Attempted to claim an incomplete payment, expected {} msat, had {} available to claim.",
 				expected_amt_msat.unwrap(), claimable_amt_msat);
+			// The payment was removed from `claimable_payments` above, so nothing else would ever
+			// resolve the parts which are still pending: fail them back rather than leaving them
+			// to time out on-chain.
+			for htlc in sources {
+				let reason = self.get_htlc_fail_reason_from_failure_code(
+					FailureCode::IncorrectOrUnknownPaymentDetails,
+					&htlc,
+				);
+				let source = HTLCSource::PreviousHopData(htlc.mpp_part.prev_hop);
+				let receiver = HTLCHandlingFailureType::Receive { payment_hash };
+				self.fail_htlc_backwards_internal(&source, &payment_hash, &reason, receiver, None);
+			}
 			return;
 		}
 		if valid_mpp {
